@@ -131,7 +131,36 @@ def constraints_consistent(c):
     c.ensure("consistent_iff_no_two_constraints_disagree_on_one_dimension", as_bool(out.value) == want)
     c.canary("canary_always_consistent", as_bool(out.value))
 
+
+@contract(P, "RecordTensor.__init__[configuration reaches the base class]", [(INF, "RecordTensor.__init__"), (INF, "ShapedTensor.__init__"), (INF, "ShapedTensor.strict"), (INF, "ShapedTensor.dimensionality")], min_obligations=3)
+def record_ctor_config(c):
+    """what the constructor is told about constraint handling is what the record does: the strict flag (a NON-strict record
+    may name one observation dimension by a positive and a negative index), the user constraints shifted past the time axis,
+    the time constraint from the size formula"""
+    it = c.interp
+    mod = repo.load_module(INF)
+    Module = it.classv(mod.classes["Module"])
+    RT = it.classv(mod.classes["RecordTensor"])
+    dt, dur = c.real("dt"), c.real("dur")
+    incl = c.bool("incl")
+    c.require(dt > 0, dur >= 0)
+    strict = c.choice("strict", [False, True])
+    s0 = c.int("size_of_observation_dim")
+    c.require(s0 >= 1)
+    cons = {0: s0, -1: s0} if not strict else {0: s0}  # non-strict: both constraints name the only observation dimension
+    owner = it.instantiate(Module, [], {})
+    rec = it.instantiate(RT, [owner, "x", dt, dur, None], {"constraints": cons, "strict": strict, "inclusive": incl})
+    c.ensure("strict_flag_is_the_one_given", c.getattr(rec, "strict") is strict)
+    stored = owner.fields["_x_constraints"]
+    want = {0: None, 1: s0} | ({-1: s0} if not strict else {})
+    c.ensure("user_constraints_shifted_past_the_time_axis", sorted(stored) == sorted(want) and all(z3.is_true(z3.simplify(num(stored[k]) == num(v))) for k, v in want.items() if v is not None))
+    c.ensure("time_constraint_is_the_size_formula", num(stored[0]) == size_formula(dur.z, dt.z, incl.z))
+    # dimensionality a tensor needs: strict counts positive and negative indices separately, non-strict takes the larger reach
+    c.ensure("dimensionality_follows_the_strict_flag", num(c.getattr(rec, "dimensionality")) == (2 if not strict else 2))
+    c.canary("canary_always_strict", z3.BoolVal(c.getattr(rec, "strict") is True))
+
 MUTANTS = [
+    dict(file=INF, func="RecordTensor.__init__", old="            strict=strict,\n            live=live,", new="            live=live,", contracts=["RecordTensor.__init__[configuration reaches the base class]"], name="seed C13f: strict flag not forwarded to the base class"),
     dict(file=INF, func="_constraints_consistent", old="        elif hypoth[dim] == size:\n            continue\n", new="", contracts=["_constraints_consistent"], name="seed C13e: a dimension named twice is a conflict even when the sizes agree"),
     dict(file=INF, func="RecordTensor.duration@setter", old='        value = argtest.gte("duration", value, 0, float)\n', new='        value = argtest.gte("duration", value, 0, float)\n        if value == self.__duration:\n            return\n', contracts=["RecordTensor.inclusive@setter", "RecordTensor.duration@setter"], name="seed C13b/C14b: duration setter returns early when unchanged (the inclusive setter relies on it to resize)"),
     dict(file=INF, func="RecordTensor.dt@setter", old="size = max(math.ceil(self.__duration / self.__dt) + self.__inclusive, 1)", new="size = max(math.ceil(self.__duration / self.__dt), 1) + self.__inclusive", contracts=["RecordTensor.dt@setter"], name="seed C13: inclusive outside max()"),
